@@ -8,6 +8,7 @@ Reg_Pre3  == <<"a1", "a2", "a3">>
 Fwd_Conns == {"a1", "a2", "b1"}
 Fwd_KeyOf == [c \in Fwd_Conns |-> IF c = "b1" THEN "B" ELSE "A"]
 Fwd_Pre   == <<"a1", "b1">>
+Fwd_Pre3  == <<"a1", "a2", "b1">>   \* a1 superseded by a2, then the peer
 Iso_Conns == {"a1", "b1", "b2"}
 Iso_KeyOf == [c \in Iso_Conns |-> IF c = "a1" THEN "A" ELSE "B"]
 Iso_Pre   == <<"b1", "a1">>
